@@ -708,6 +708,10 @@ def run(rep: Any, tier: str, seed: int) -> None:
                     "non-trivial = at least two generated classes accept the requested name (distinct universe+request)")
     for u, c in (cases[0], cases[7], cases[len(cases) // 2]):
         rep.sample({"classes": u["classes"], "order": u["orders"][c["k"]], "request": u["requests"][c["ri"]], "obs": c["obs"]})
+
+    # ---- second family: histories of one process (classes created between requests), requests with several features
+    from harness import c10_hist
+    found = c10_hist.run(rep, tier, seed) or found
     if not pr.ok and not found:
         rep.finding("proof-broken", "Props/C10.v no longer checks",
                     {"failed_files": pr.failed_files, "forbidden": pr.forbidden, "log_tail": pr.log[-3000:]}, found_input=False)
@@ -716,6 +720,10 @@ def run(rep: Any, tier: str, seed: int) -> None:
 def replay(path: str) -> int:
     r = json.load(open(path))["replay"]
     print(json.dumps({k: v for k, v in r.items() if k != "universe"}, indent=1))
+    if r.get("kind") in ("hist", "hist-dep"):
+        from harness import c10_hist
+        c10_hist.replay(r)
+        return 0
     u = r.get("universe")
     if not u:
         return 0
